@@ -453,11 +453,13 @@ def _derives_from_param(fn, expr, param, depth=0):
     for n in ast.walk(expr):
         if isinstance(n, ast.Name) and n.id == param:
             return True
-    if isinstance(expr, ast.Name) and depth < 3:
-        for s in flow.stmts_of(fn, ast.Assign):
-            if any(isinstance(t, ast.Name) and t.id == expr.id for t in s.targets):
-                if _derives_from_param(fn, s.value, param, depth + 1):
-                    return True
+    if depth < 4:
+        for nm in {n.id for n in ast.walk(expr) if isinstance(n, ast.Name)}:
+            for s in flow.stmts_of(fn, ast.Assign):
+                tg = [x for t in s.targets for x in (t.elts if isinstance(t, ast.Tuple) else [t])]
+                if any(isinstance(t, ast.Name) and t.id == nm for t in tg):
+                    if _derives_from_param(fn, s.value, param, depth + 1):
+                        return True
     return False
 
 
